@@ -216,6 +216,7 @@ func vhSpilledLeaf(e *vhIndexEnv, n int) int {
 	return e.newPage(l)
 }
 
+//verif:prop C12,C20
 //verif:bounds index leaf of 3 (thorough: 4) entries whose records spill to one overflow page each; operations ScanEq / ScanMin / ScanRange / Scan with symbolic int64 keys; the failing page read k = any ordinal (one-shot I/O error)
 func VH_C12_index_overflow() {
 	e := &vhIndexEnv{vhTreeEnv: vhNewEnv()}
@@ -278,7 +279,7 @@ func VH_C12_index_overflow() {
 // Text keys under a collation: an index leaf of 3 one-byte text entries sorted
 // by the reference NOCASE / RTRIM / BINARY order (ties by rowid); from-key and
 // equality scans with a one-byte text key carrying the same collation.
-//verif:prop C13,C03
+//verif:prop C13,C03,C20
 //verif:bounds index leaf of 3 entries (text of exactly 1 byte, any byte < 0x80; rowids any int64), collation binary / nocase / rtrim, ASC; key = any 1-byte text; ScanMin and ScanEq
 func VH_C13_text_collation() {
 	coll := verifChoice(3)
@@ -342,6 +343,7 @@ func VH_C13_text_collation() {
 
 // C12, table side: rows whose records spill to an overflow page; the k-th page
 // read fails while scanning or looking a row up by rowid.
+//verif:prop C12,C20
 //verif:bounds table leaf of 2 rows (rowids, values symbolic) each spilling to one overflow page; operations Table.Scan and Table.Rowid(present or absent rowid); failing page read k = any ordinal (one-shot)
 func VH_C12_table_overflow() {
 	e := vhNewEnv()
